@@ -26,7 +26,7 @@ enum Second {
     InitRejected(String),
     BadConfig(String),
     SolveError(String),
-    Done { seeded: Vec<f64>, returned: Vec<f64>, order: i8, raw_order: i8, seeded_routes: usize, seeded_unassigned: usize, doc: String },
+    Done { seeded: Vec<f64>, returned: Vec<f64>, order: i8, raw_order: i8, returned_count: usize, seeded_routes: usize, seeded_unassigned: usize, doc: String },
 }
 
 fn tuning(tier: Tier) -> W1Tuning {
@@ -60,7 +60,7 @@ pub fn make_case(seed: u64, tier: Tier) -> RestartCase {
     if p.chance(0.3) {
         second_spec.stalls.push((p.range(1, 3000) as u64, *p.pick(&[250_000_000u64, 5_000_000_000, 400_000_000_000])));
     }
-    let second_returns = *p.pick(&[1usize, 1, 2, 3]);
+    let second_returns = *p.pick(&[1usize, 1, 2, 3, 6, 9]);
     RestartCase { first, second_config: c.config, second_spec, second_returns }
 }
 
@@ -117,7 +117,7 @@ fn second_run(case: &RestartCase, stored: &str, via_solver: bool) -> crate::kern
             };
             drop(solution);
             drop(reference);
-            return sys::monitor(|| Second::Done { seeded: vec![], returned: vec![], order: 0, raw_order: 0, seeded_routes: 0, seeded_unassigned: 0, doc: doc.as_str().to_string() });
+            return sys::monitor(|| Second::Done { seeded: vec![], returned: vec![], order: 0, raw_order: 0, returned_count: 0, seeded_routes: 0, seeded_unassigned: 0, doc: doc.as_str().to_string() });
         }
         // the post-processing steps of the solver (departure advance, reserved time re-scheduling, unassignment
         // reasons, cluster expansion) are taken out of the configuration and applied here, exactly as the simulator
@@ -125,6 +125,7 @@ fn second_run(case: &RestartCase, stored: &str, via_solver: bool) -> crate::kern
         // population ranked it
         let mut post = Vec::new();
         let mut raw_order = Ordering::Equal;
+        let mut returned_count = 0usize;
         let result = builder
             .and_then(|builder| builder.build())
             .map(|mut config| {
@@ -137,6 +138,8 @@ fn second_run(case: &RestartCase, stored: &str, via_solver: bool) -> crate::kern
                 if let Some(first) = solutions.first() {
                     raw_order = problem.goal.total_order(first, &reference);
                 }
+                // the strategy hands out the first n ranked individuals: never more than the population may hold
+                returned_count = solutions.len();
                 let solutions: Vec<InsertionContext> = solutions.into_iter().map(|solution| post.iter().fold(solution, |s, hook| hook.post_process(s))).collect();
                 (solutions, metrics)
             })
@@ -176,7 +179,7 @@ fn second_run(case: &RestartCase, stored: &str, via_solver: bool) -> crate::kern
         drop(solution);
         let (seeded_routes, seeded_unassigned) = (reference.solution.routes.len(), reference.solution.unassigned.len());
         drop(reference);
-        sys::monitor(|| Second::Done { seeded: seeded.to_vec(), returned: returned.to_vec(), order, raw_order, seeded_routes, seeded_unassigned, doc: doc.as_str().to_string() })
+        sys::monitor(|| Second::Done { seeded: seeded.to_vec(), returned: returned.to_vec(), order, raw_order, returned_count, seeded_routes, seeded_unassigned, doc: doc.as_str().to_string() })
     })
 }
 
@@ -218,7 +221,22 @@ fn record(case: &RestartCase, seed: u64) -> CaseRecord {
             rec.count(&format!("restart.init_not_readable.{}", class.replace(['.', '\'', '"'], "")), 1);
         }
         Ok(Second::SolveError(e)) => push(&mut rec, "restart-solve-error", population, format!("the seeded solve returned an error: {e}")),
-        Ok(Second::Done { seeded, returned, order, raw_order, seeded_routes, seeded_unassigned, doc }) => {
+        Ok(Second::Done { seeded, returned, order, raw_order, returned_count, seeded_routes, seeded_unassigned, doc }) => {
+            // size bound of the configured population, seen through what the strategy hands out
+            let pop_cfg = &case.second_config["evolution"]["population"];
+            let bound = match pop_cfg["type"].as_str() {
+                Some("greedy") => Some(1usize),
+                Some("elitism") => Some(pop_cfg["maxSize"].as_u64().unwrap_or(4) as usize),
+                _ => None,
+            };
+            if let Some(bound) = bound {
+                rec.count("restart.population_size_bound_checked", 1);
+                if returned_count > bound.min(case.second_returns) {
+                    rec.issues.push(IssueRec { prop: "C08".into(), rule: "population-over-configured-size".into(), sig: population.clone(), msg: format!("the {} population configured with {} holds at least {} individuals at the end of the solve ({} requested from the strategy)", population, pop_cfg, returned_count, case.second_returns) });
+                } else if case.second_returns > bound {
+                    rec.count("restart.population_size_bound_binding", 1);
+                }
+            }
             rec.count("restart.second_runs_done", 1);
             if std::env::var_os("VSIM_DUMP").is_some() {
                 crate::say!("{}", serde_json::to_string(&json!({"case": case.first.to_json(), "solution": serde_json::from_str::<Value>(&stored).unwrap_or(Value::Null), "second": serde_json::from_str::<Value>(&doc).unwrap_or(Value::Null), "second_config": case.second_config, "checker": format!("seeded {:?} returned {:?} order {}", seeded, returned, order)})).unwrap());
